@@ -29,9 +29,9 @@ VNum == {-2, 0, 1, 6}      \* -0.5, 0, 0.25, 1.5
 V(t_) == IF t_ = "integer" THEN VInt ELSE VNum
 Mults(t_) == IF t_ = "integer" THEN {4, 8, 12} ELSE {1, 2, 6}   \* 1,2,3 / 0.25,0.5,1.5
 
-Incl(t_) == {Off} \cup {On(v) : v \in V(t_)}
+Incl(t_) == {Off} \cup {On(JNum(v)) : v \in V(t_)}
 Excl(t_) == {Off, On([k |-> "b", b |-> TRUE]), On([k |-> "b", b |-> FALSE])}
-            \cup {On([k |-> "n", h |-> v]) : v \in V(t_)}
+            \cup {On([k |-> "n", h |-> JNum(v)]) : v \in V(t_)}
 MultS(t_) == {Off} \cup {On(m) : m \in Mults(t_)}
 
 Field(k, o) == IF o.on THEN k :> o.v ELSE <<>>
